@@ -83,7 +83,53 @@ def string_writers(w):
     return wr
 
 
-def out_writes(w, fn, a_state):
+_SW = {}
+NOT_CONTENT = re.compile(r"::(flush_pending|flush_pending_with_indent|emit_break)$")
+
+
+def state_writers(w):
+    """render functions with a `state` parameter that (transitively) append content to state.out: a call `emit_pad(.., state)` is a write"""
+    key = id(w)
+    if key in _SW:
+        return _SW[key]
+    sw = {}
+    fns = {p: x for p, x in w.fns.items() if p.startswith(M) and not x.get("alias_of") and "::tests::" not in p and "{" not in p[len(M):]}
+    changed = True
+    cache = {}
+    while changed:
+        changed = False
+        for p, x in sorted(fns.items()):
+            if p in sw:
+                continue
+            g = cache.get(p)
+            if g is None:
+                g = cache[p] = Fn(w.mir(p))
+            an = {g.name(i): i for i in range(1, g.nargs + 1)}
+            if "state" not in an:
+                continue
+            direct = bool(_out_writes_direct(w, g, an["state"]))
+            via = any((t.get("callee") or "") in sw and any(a[0] != "k" and flow.access_path(g, a) == (("arg", an["state"]), ()) for a in t["args"]) for bi, t in g.calls())
+            if direct or via:
+                sw[p] = an["state"]
+                changed = True
+    _SW.clear()
+    _SW[key] = sw
+    return sw
+
+
+def out_writes(w, fn, a_state, helpers=False):
+    """calls that append to state.out; with helpers=True also calls of content-writing state helpers (not the flush / break helpers)"""
+    out = _out_writes_direct(w, fn, a_state)
+    if helpers:
+        sw = state_writers(w)
+        for bi, t in fn.calls():
+            c = t.get("callee") or ""
+            if c in sw and not NOT_CONTENT.search(c) and any(a[0] != "k" and flow.access_path(fn, a) == (("arg", a_state), ()) for a in t["args"]):
+                out.append((bi, t, []))
+    return out
+
+
+def _out_writes_direct(w, fn, a_state):
     """[(bb, terminator, payload operands)] calls that append to state.out: String's own appenders and the string helpers above."""
     wr = string_writers(w)
     out = []
@@ -277,7 +323,7 @@ def run(world, tier, info, only=None):
             if text_payload:
                 pushes = [b for b in flow.call_blocks(f, PUSH_STR, lambda fn, t: _is_state_out(fn, t["args"][0], A_STATE) and _payload(fn, t["args"][1], v)) if b in region]
             else:
-                pushes = [b for b, _, _ in out_writes(w, f, A_STATE) if b in region]
+                pushes = [b for b, _, _ in out_writes(w, f, A_STATE, helpers=True) if b in region]
             if not pushes:
                 ck.ob("R3", "render_frame/%s/pushes" % v, False, site(s_rf), "the Doc::%s arm never writes to state.out" % v)
                 return
@@ -393,7 +439,7 @@ def run(world, tier, info, only=None):
             ck.ob("R7", "flush-before-write:%s@%d" % (p7.split("::")[-1], _ordinal_call(g7, pushes7, bi)), ok, site(s7, t["l"]),
                   why if ok else "state.out is written while an indent may still be pending: the indent is flushed later with an absolute column, "
                   "so the cursor (and every anchor recorded after it on that line) is off by what was written here")
-    ck.floor("R7", "writes to state.out outside the flush/break/comment helpers", n7, 8)
+    ck.floor("R7", "writes to state.out outside the flush/break/comment helpers", n7, 4)
     cursor_obligations(ck, w)
     n_col = col_units(ck, w)
     ck.analysed = {"functions": [M + n for n in need], "doc_variants": variants, "col_writes": n_col}
@@ -494,7 +540,7 @@ def cursor_obligations(ck, w, R8="R8", R9="R9", floors=True):
                   "anchor recorded after it on this line, lags behind the text" % esc)
     if floors:
         ck.floor(R8, "column resets", n8, 3)
-        ck.floor(R9, "writes to state.out", n9, 14)
+        ck.floor(R9, "writes to state.out", n9, 8)
     return n8, n9
 
 
